@@ -20,7 +20,7 @@ Fresh == [alive |-> FALSE, g |-> "nil", cfg |-> FALSE, limited |-> FALSE]
 InitState == [i \in Insts |-> Fresh]
 
 \* input kinds of sqfvm_call with type 's'
-SqfKinds == {"evalerr", "setg1", "setg2", "readg", "readcfg", "ppfail", "parsefail", "rterr", "rterr_spawned", "endless", "sleeper", "yielder", "napper", "empty"}
+SqfKinds == {"verbose", "evalerr", "setg1", "setg2", "readg", "readcfg", "ppfail", "parsefail", "rterr", "rterr_spawned", "endless", "sleeper", "yielder", "napper", "empty"}
 CfgKinds == {"cfgok", "cfgparsefail", "cfgppfail", "cfgevalerr"}
 
 ToS(n) == ToString(n)
@@ -46,7 +46,8 @@ Apply(st, o) ==
             ELSE \* type "s"
            \* evalerr: the text holds an __EVAL whose expression fails while the text is preprocessed (it expands to nothing);
            \* what is left is valid and sets g to 1
-           (CASE o.kind \in {"setg1", "evalerr"} -> [st |-> [st EXCEPT ![o.i].g = "1"], obs |-> [ret |-> 0, status |-> 0, out |-> ""]]
+           \* verbose: a statement that earns a warning and a verbose-level diagnostic ("Returning nil") and goes on
+           (CASE o.kind \in {"setg1", "evalerr", "verbose"} -> [st |-> [st EXCEPT ![o.i].g = "1"], obs |-> [ret |-> 0, status |-> 0, out |-> ""]]
               [] o.kind = "setg2" -> [st |-> [st EXCEPT ![o.i].g = "2"], obs |-> [ret |-> 0, status |-> 0, out |-> ""]]
               [] o.kind = "readg" -> [st |-> st, obs |-> [ret |-> 0, status |-> 0, out |-> "G:" \o s.g]]
               [] o.kind = "readcfg" -> [st |-> st, obs |-> [ret |-> 0, status |-> 0, out |-> "C:" \o (IF s.cfg THEN "1" ELSE "0")]]
